@@ -1,4 +1,394 @@
 package main
 
-func tokGen(n int) {}
-func tokExec()     {}
+import (
+	"encoding/json"
+	"fmt"
+	"io"
+	"math/rand"
+	"strings"
+
+	"verif/harness/absval"
+	"verif/harness/plib"
+
+	"github.com/ohler55/ojg/gen"
+	"github.com/ohler55/ojg/oj"
+	"github.com/ohler55/ojg/sen"
+)
+
+var numEnc = absval.Opt{AlwaysDec: true, FloatMid: true}
+
+// rec is the recording oj.TokenHandler: nothing but the callbacks, in order.
+type rec struct{ ev []map[string]any }
+
+func (h *rec) add(e map[string]any) {
+	if len(h.ev) < 200000 {
+		h.ev = append(h.ev, e)
+	}
+}
+func (h *rec) Null()           { h.add(map[string]any{"k": "null"}) }
+func (h *rec) Bool(v bool)     { h.add(map[string]any{"k": "bool", "v": v}) }
+func (h *rec) Int(v int64)     { h.add(map[string]any{"k": "int", "r": numEnc.Encode(v)}) }
+func (h *rec) Float(v float64) { h.add(map[string]any{"k": "float", "r": numEnc.Encode(v)}) }
+func (h *rec) Number(v string) { h.add(map[string]any{"k": "number", "r": numEnc.Encode(json.Number(v))}) }
+func (h *rec) String(v string) { h.add(map[string]any{"k": "string", "v": ints([]byte(v))}) }
+func (h *rec) Key(v string)    { h.add(map[string]any{"k": "key", "v": ints([]byte(v))}) }
+func (h *rec) ObjectStart()    { h.add(map[string]any{"k": "{"}) }
+func (h *rec) ObjectEnd()      { h.add(map[string]any{"k": "}"}) }
+func (h *rec) ArrayStart()     { h.add(map[string]any{"k": "["}) }
+func (h *rec) ArrayEnd()       { h.add(map[string]any{"k": "]"}) }
+
+type obsT struct {
+	Fam string           `json:"fam"`
+	As  []string         `json:"as"`
+	Err int              `json:"err"`
+	Pan int              `json:"pan"`
+	Ev  []map[string]any `json:"ev"`
+	sig string
+}
+
+type call struct {
+	fam, api string
+	run      func(y []byte, h *rec) error
+}
+
+func docCB(h *rec) func(any) {
+	return func(v any) { h.add(map[string]any{"k": "doc", "r": numEnc.Encode(v)}) }
+}
+
+var chunkModes = []string{"whole", "1", "2", "3", "7", "half", "dataerr"}
+
+func calls(y []byte, extraSplit []int) []call {
+	cs := []call{
+		{"oj", "oj.Tokenize", func(y []byte, h *rec) error { return oj.Tokenize(y, h) }},
+		{"oj", "oj.TokenizeString", func(y []byte, h *rec) error { return oj.TokenizeString(string(y), h) }},
+		{"oj", "oj.Tokenizer.Parse", func(y []byte, h *rec) error { return (&oj.Tokenizer{}).Parse(y, h) }},
+		{"sen", "sen.Tokenize", func(y []byte, h *rec) error { return sen.Tokenize(y, h) }},
+		{"sen", "sen.TokenizeString", func(y []byte, h *rec) error { return sen.TokenizeString(string(y), h) }},
+		{"sen", "sen.Tokenizer.Parse", func(y []byte, h *rec) error { return (&sen.Tokenizer{}).Parse(y, h) }},
+		{"docs-oj", "oj.ParseString+func(any)bool", func(y []byte, h *rec) error {
+			cb := docCB(h)
+			_, err := oj.ParseString(string(y), func(v any) bool { cb(v); return false })
+			return err
+		}},
+		{"docs-oj", "oj.Parser.Parse+func(any)", func(y []byte, h *rec) error {
+			_, err := (&oj.Parser{}).Parse(y, docCB(h))
+			return err
+		}},
+		{"docs-oj", "oj.Parser.Parse+chan", func(y []byte, h *rec) error {
+			ch := make(chan any, 16)
+			done := make(chan struct{})
+			cb := docCB(h)
+			go func() {
+				for v := range ch {
+					cb(v)
+				}
+				close(done)
+			}()
+			var err error
+			func() {
+				defer func() { close(ch); <-done }()
+				_, err = (&oj.Parser{}).Parse(y, ch)
+			}()
+			return err
+		}},
+		{"docs-sen", "sen.Parser.Parse+func(any)", func(y []byte, h *rec) error {
+			_, err := (&sen.Parser{}).Parse(y, docCB(h))
+			return err
+		}},
+		{"docs-gen", "gen.Parser.Parse+func(gen.Node)", func(y []byte, h *rec) error {
+			cb := docCB(h)
+			_, err := (&gen.Parser{}).Parse(y, func(n gen.Node) {
+				if n == nil {
+					cb(nil)
+				} else {
+					cb(n)
+				}
+			})
+			return err
+		}},
+	}
+	modes := append([]string{}, chunkModes...)
+	for _, k := range extraSplit {
+		if 0 < k && k < len(y) {
+			modes = append(modes, fmt.Sprintf("split:%d", k))
+		}
+	}
+	for _, m := range modes {
+		m := m
+		rd := func(y []byte) io.Reader { return plib.Chunked(y, m) }
+		cs = append(cs,
+			call{"oj", "oj.TokenizeLoad@" + m, func(y []byte, h *rec) error { return oj.TokenizeLoad(rd(y), h) }},
+			call{"sen", "sen.TokenizeLoad@" + m, func(y []byte, h *rec) error { return sen.TokenizeLoad(rd(y), h) }},
+		)
+		if m == "whole" || m == "1" || m == "3" || strings.HasPrefix(m, "split") {
+			cs = append(cs,
+				call{"docs-oj", "oj.Parser.ParseReader+func(any)@" + m, func(y []byte, h *rec) error {
+					_, err := (&oj.Parser{}).ParseReader(rd(y), docCB(h))
+					return err
+				}},
+				call{"docs-sen", "sen.Parser.ParseReader+func(any)@" + m, func(y []byte, h *rec) error {
+					_, err := (&sen.Parser{}).ParseReader(rd(y), docCB(h))
+					return err
+				}},
+			)
+		}
+	}
+	return cs
+}
+
+func runCall(c call, y []byte) (o obsT) {
+	h := &rec{}
+	o.Fam = c.fam
+	func() {
+		defer func() {
+			if r := recover(); r != nil {
+				o.Pan = 1
+			}
+		}()
+		if err := c.run(y, h); err != nil {
+			o.Err = 1
+		}
+	}()
+	o.Ev = h.ev
+	if o.Ev == nil {
+		o.Ev = []map[string]any{}
+	}
+	b, _ := json.Marshal(o.Ev)
+	o.sig = fmt.Sprintf("%s|%d|%d|%s", o.Fam, o.Err, o.Pan, b)
+	return
+}
+
+func toBytes(x any) []byte { return bytesOf(x) }
+
+func tokOne(c map[string]any) map[string]any {
+	y := toBytes(c["y"])
+	var split []int
+	if m, ok := c["m"].(map[string]any); ok {
+		if k, ok := m["k"].(float64); ok && k > 1 {
+			split = []int{int(k) - 1, int(k)}
+		}
+	}
+	if len(y) > 4096 {
+		split = append(split, 4095, 4096, 4097)
+	}
+	only, _ := c["only"].(string) // replay of a single api
+	var obs []*obsT
+	idx := map[string]*obsT{}
+	perFam := map[string]int{}
+	ncalls := 0
+	for _, cl := range calls(y, split) {
+		if only != "" && cl.api != only {
+			continue
+		}
+		o := runCall(cl, y)
+		ncalls++
+		perFam[cl.fam]++
+		if p, ok := idx[o.sig]; ok {
+			p.As = append(p.As, cl.api)
+			continue
+		}
+		o.As = []string{cl.api}
+		oc := o
+		idx[o.sig] = &oc
+		obs = append(obs, &oc)
+	}
+	for _, o := range obs {
+		if len(o.As) == perFam[o.Fam] && len(o.As) > 1 {
+			o.As = []string{"all " + o.Fam}
+		}
+	}
+	c["obs"] = obs
+	c["calls"] = ncalls
+	if c["ne"] == nil {
+		c["ne"], c["nd"] = -1, -1
+	}
+	if c["id"] == nil {
+		c["id"] = 0
+	}
+	if c["src"] == nil {
+		c["src"] = "?"
+	}
+	return c
+}
+
+func tokExec() {
+	const W = 6
+	type job struct {
+		c   map[string]any
+		res chan map[string]any
+	}
+	jobs := make(chan job, 64)
+	order := make(chan chan map[string]any, 64)
+	for w := 0; w < W; w++ {
+		go func() {
+			for j := range jobs {
+				j.res <- tokOne(j.c)
+			}
+		}()
+	}
+	fin := make(chan struct{})
+	go func() {
+		for r := range order {
+			emit(<-r)
+		}
+		close(fin)
+	}()
+	readCases(func(c map[string]any) {
+		r := make(chan map[string]any, 1)
+		order <- r
+		jobs <- job{c, r}
+	})
+	close(jobs)
+	close(order)
+	<-fin
+}
+
+// ---------------------------------------------------------------- seeded random texts
+
+var numPool = []string{"0", "-0", "1", "-1", "7", "12", "-12", "100", "2147483648", "9223372036854775806", "9223372036854775807", "9223372036854775808",
+	"-9223372036854775807", "-9223372036854775808", "-9223372036854775809", "18446744073709551616", "123456789012345678901234567890",
+	"0.0", "-0.0", "0.1", "1.5", "2.50", "1.0", "1e2", "1E+2", "1e-2", "0e0", "1e5", "1.25e3", "12.5E-1", "1e22", "1e23", "1e308", "1.7976931348623157e308",
+	"1.7976931348623159e308", "1e309", "1e400", "-1e400", "1e-400", "4.9e-324", "2.2250738585072014e-308", "1.234567890123456789", "0.30000000000000004",
+	"100000000000000000000.5", "9007199254740993", "9007199254740993.0", "1e1022", "1e1023", "123456789012345678", "1234567890.123456789", "0.000001", "1e-7"}
+
+var strPool = []string{``, `a`, `b`, `a.b`, `x y`, `é`, `日本`, `\n`, `a\tb`, `\"`, `\\`, `\/`, `\b\f\r`, `A`, `é`, `é`, `€`, `😀`, `😀 x`,
+	`\ud83d`, `\ude00`, `\ud83dx`, `\u0000`, `\u001f`, "\U0001F600", `{\"a\":1}`, `[1,2]`, `null`, `true`, `12`, `//`, `/* c */`, `'q'`, `a,b`, `a:b`, ` lead`, `trail `, `}`, `]`}
+
+type rgen struct {
+	r   *rand.Rand
+	b   []byte
+	sw  [][2]int // admissible swaps: position (1-based), replacement byte
+	big bool
+}
+
+func (g *rgen) ws() {
+	if g.r.Intn(3) == 0 {
+		for i := g.r.Intn(3); i >= 0; i-- {
+			g.b = append(g.b, " \n\t\r"[g.r.Intn(4)])
+		}
+	}
+}
+
+func (g *rgen) str() {
+	g.b = append(g.b, '"')
+	if g.big && g.r.Intn(4) == 0 {
+		g.b = append(g.b, strings.Repeat("long string ", 50+g.r.Intn(100))...)
+	} else {
+		g.b = append(g.b, strPool[g.r.Intn(len(strPool))]...)
+		if g.r.Intn(4) == 0 {
+			g.b = append(g.b, strPool[g.r.Intn(len(strPool))]...)
+		}
+	}
+	g.b = append(g.b, '"')
+}
+
+func (g *rgen) value(depth int) {
+	k := g.r.Intn(10)
+	if depth == 0 && k >= 7 {
+		k = g.r.Intn(7)
+	}
+	switch {
+	case k == 0:
+		g.b = append(g.b, []string{"null", "true", "false"}[g.r.Intn(3)]...)
+	case k <= 3:
+		g.b = append(g.b, numPool[g.r.Intn(len(numPool))]...)
+	case k <= 6:
+		g.str()
+	case k <= 8 || true:
+		obj := k == 9 || g.r.Intn(3) == 0
+		n := g.r.Intn(5)
+		if g.big && g.r.Intn(3) == 0 {
+			n += 20
+		}
+		if obj {
+			g.b = append(g.b, '{')
+		} else {
+			g.b = append(g.b, '[')
+		}
+		g.ws()
+		for i := 0; i < n; i++ {
+			if i > 0 {
+				g.sw = append(g.sw, [2]int{len(g.b) + 1, ':'})
+				g.b = append(g.b, ',')
+				g.ws()
+			}
+			if obj {
+				g.str()
+				g.ws()
+				g.sw = append(g.sw, [2]int{len(g.b) + 1, ','})
+				g.b = append(g.b, ':')
+				g.ws()
+			}
+			g.value(depth - 1)
+			g.ws()
+		}
+		if obj {
+			g.sw = append(g.sw, [2]int{len(g.b) + 1, ']'})
+			g.b = append(g.b, '}')
+		} else {
+			g.sw = append(g.sw, [2]int{len(g.b) + 1, '}'})
+			g.b = append(g.b, ']')
+		}
+	}
+}
+
+func tokGen(n int) {
+	r := rand.New(rand.NewSource(seed()))
+	for i := 0; i < n; i++ {
+		g := &rgen{r: r, big: i%40 == 39}
+		if r.Intn(25) == 0 {
+			g.b = append(g.b, 0xEF, 0xBB, 0xBF)
+		}
+		g.ws()
+		docs := 1
+		if r.Intn(4) == 0 {
+			docs = 2 + r.Intn(3)
+		}
+		for d := 0; d < docs; d++ {
+			if d > 0 {
+				last := g.b[len(g.b)-1]
+				if !(r.Intn(3) == 0 && (last == '}' || last == ']')) {
+					g.b = append(g.b, " \n"[r.Intn(2)])
+				}
+				if r.Intn(3) == 0 { // force a container so that tight separation occurs
+					g.b = append(g.b, "[{"[r.Intn(2)])
+					g.sw = append(g.sw, [2]int{len(g.b) + 1, map[byte]int{'[': '}', '{': ']'}[g.b[len(g.b)-1]]})
+					g.b = append(g.b, map[byte]byte{'[': ']', '{': '}'}[g.b[len(g.b)-1]])
+					continue
+				}
+			}
+			g.value(1 + r.Intn(4))
+		}
+		g.ws()
+		if g.big {
+			// cross the 4096-byte refill boundary of the readers
+			for len(g.b) < 4200 {
+				g.b = append(g.b, ' ')
+				g.b = append(g.b, []byte(`{"pad":[1,2.5,"x",null,true]}`)...)
+			}
+		}
+		x := ints(g.b)
+		mk := func(t string, k, b int, y []byte) {
+			emit(map[string]any{"src": "go", "x": x, "m": map[string]any{"t": t, "k": k, "b": b}, "y": ints(y), "ne": -1, "nd": -1})
+		}
+		mk("none", 0, 0, g.b)
+		if g.big {
+			if r.Intn(2) == 0 {
+				k := 4000 + r.Intn(150)
+				mk("cut", k, 0, g.b[:k])
+			}
+			continue
+		}
+		ncut := 3
+		for c := 0; c < ncut && len(g.b) > 0; c++ {
+			k := r.Intn(len(g.b))
+			mk("cut", k, 0, g.b[:k])
+		}
+		for c := 0; c < 2 && len(g.sw) > 0; c++ {
+			s := g.sw[r.Intn(len(g.sw))]
+			y := append([]byte{}, g.b...)
+			y[s[0]-1] = byte(s[1])
+			mk("swap", s[0], s[1], y)
+		}
+	}
+}
